@@ -77,6 +77,7 @@ typedef struct qgen {
 	int width_pct;       // chance that a concurrent queue gets a small explicit width
 	int use_main;        // include the main queue, drained by sim thread 0
 	int specific;        // set queue-specific keys
+	int blockobj;        // barrier items may be DISPATCH_BLOCK_BARRIER block objects
 } qgen;
 
 void qgen_defaults(qgen *g);
